@@ -77,15 +77,17 @@ def run_case(sub, case, prop, known_ids, stats, curfile=None, ctx=None):
         if limit:
             # only for sub-checks whose property includes termination: a case that normally takes milliseconds and is
             # still running after `limit` seconds is reported as non-termination
-            signal.signal(signal.SIGALRM, _alarm)
-            signal.setitimer(signal.ITIMER_REAL, limit)
+            # The clock is the CPU time of this process (ITIMER_VIRTUAL), not the wall clock: on a loaded machine a descheduled
+            # process must not look like a hang - a time limit is never a correctness signal, a loop that burns CPU for ever is.
+            signal.signal(signal.SIGVTALRM, _alarm)
+            signal.setitimer(signal.ITIMER_VIRTUAL, limit)
         try:
             sub.check(case, ctx)
         except _Watchdog:
-            raise Violation('non-termination', 'case still running after %ss wall-clock (normal cases take milliseconds)' % limit)
+            raise Violation('non-termination', 'case still computing after %ss of CPU time (normal cases take milliseconds)' % limit)
         finally:
             if limit:
-                signal.setitimer(signal.ITIMER_REAL, 0)
+                signal.setitimer(signal.ITIMER_VIRTUAL, 0)
     finally:
         stats.absorb(case, ctx)
 
@@ -154,8 +156,12 @@ def main(argv):
             # a violation was observed but did not reproduce on Hypothesis' re-execution (non-deterministic package
             # code such as ARPACK start vectors): still a violation, the saved case may need several replays
             v = dict(fail['last'])
-            v['msg'] += ' [observed once; not reproduced on immediate re-execution]'
-            stats.violations.append(v)
+            if v.get('bucket') == 'non-termination':
+                # a time limit that does not reproduce is inconclusive, never a violation
+                stats.skipped += 1
+            else:
+                v['msg'] += ' [observed once; not reproduced on immediate re-execution]'
+                stats.violations.append(v)
         else:
             result['harness_error'] = ''.join(traceback.format_exception(type(e), e, e.__traceback__))[-6000:]
 
